@@ -51,11 +51,11 @@ type ShimCase struct {
 	BadAddress bool
 	Certs      []CertDef
 	// Initial operations are applied to the keyring before the shim is constructed (oobadd / oobaddcert only).
-	Initial       []Op
+	Initial []Op
 	// ListsWhileLocked: the underlying agent keeps listing its identities while locked.
 	ListsWhileLocked bool        `json:",omitempty"`
 	ConstructPlan    []FaultRule `json:",omitempty"`
-	Ops           []Op
+	Ops              []Op
 }
 
 // Trace reports what a history exercised (for the non-trivial rules of the properties).
@@ -102,8 +102,8 @@ type world struct {
 	// upLocked mirrors the lock state of the underlying agent (it can lose its lock out of band)
 	upLocked bool
 	dead     bool // the connection to the underlying agent was destroyed by a fault
-	closed bool
-	tr     Trace
+	closed   bool
+	tr       Trace
 
 	hasLapsing bool
 	lapsed     bool
@@ -137,6 +137,13 @@ func keyIDFor(class string, serial uint64, key string) (string, map[string]strin
 	case "ysshca8": // principals encoded as null (what Marshal produces for a nil list)
 		a.Prins, a.PrinsNil = nil, true
 		a.HW, a.Touch = true, 1
+	case "ysshca9": // the same KeyID in another textual form: members reordered, JSON whitespace inside and around
+		a.HW, a.Touch = true, 1
+		ms := a.Members()
+		for i, j := 0, len(ms)-1; i < j; i, j = i+1, j-1 {
+			ms[i], ms[j] = ms[j], ms[i]
+		}
+		return " \n" + JoinMembers(ms, " ") + "\t\n", nil
 	case "missing":
 		ms := a.Members()
 		ms = append(ms[:4:4], ms[5:]...) // drop reqHost
@@ -637,6 +644,18 @@ func (w *world) step(i int, op Op) error {
 			// sub-step is one whose error is ignored by design; later operations cannot
 			if wasDead && opErr == nil && !w.locked {
 				return Errf("%s succeeded although the connection to the underlying agent was destroyed", where)
+			}
+		case "forward", "extension":
+			// a reply that never arrived completely (connection closed, cut inside the frame, declared
+			// length beyond the limit) must come back as an error, not as a shorter reply
+			lost := wasDead
+			for _, f := range w.p.Frames() {
+				if f.Index >= frames0 && (f.Fault == "close" || f.Fault == "oversize" || f.Fault == "truncate") {
+					lost = true
+				}
+			}
+			if lost && opErr == nil {
+				return Errf("%s: the underlying agent's reply was lost (connection closed / frame cut / oversize), yet the call reported success with a reply of %d bytes", where, len(reply))
 			}
 		case "close":
 			if opErr == nil {
